@@ -28,6 +28,7 @@ func errVal(fc *fctx, nonNil bool) *Val {
 
 var externals map[string]*external
 
+
 func init() {
 	str := types.Typ[types.String]
 	externals = map[string]*external{
@@ -74,6 +75,8 @@ func init() {
 		"(*sync.Mutex).Lock":      {apply: noop},
 		"(*sync.Mutex).Unlock":    {apply: noop},
 		"(*log.Logger).Printf":    {apply: noop},
+		"log.Println":             {apply: noop},
+
 		"log.Printf":              {apply: noop},
 		"(*log.Logger).Output":    {apply: func(fc *fctx, a []*Val, _ token.Pos) []*Val { return []*Val{errVal(fc, false)} }},
 	}
@@ -95,6 +98,20 @@ func lookupExternal(fn *ssa.Function) *external {
 func (fc *fctx) externalCall(callee *ssa.Function, args []*Val, cc *ssa.CallCommon, pos token.Pos) []*Val {
 	tr := fc.tr
 	key := callee.String()
+	switch key {
+	case "reflect.ValueOf":
+		tr.u.decl("reflect_kind_of", "(declare-fun reflect_kind_of (Iface) Int)")
+		v := fc.freshVal("rv", callee.Signature.Results().At(0).Type())
+		tr.reflectOf[v.E()] = args[0]
+		tr.trusted["reflect.ValueOf/Kind: the kind is an uninterpreted function of the interface value"] = true
+		return []*Val{v}
+	case "(reflect.Value).Kind":
+		tr.u.decl("reflect_kind_of", "(declare-fun reflect_kind_of (Iface) Int)")
+		if src, ok := tr.reflectOf[args[0].E()]; ok {
+			return []*Val{mkVal("(reflect_kind_of "+src.E()+")", "Int", callee.Signature.Results().At(0).Type())}
+		}
+		return fc.freshResults(callee.Signature.Results(), "kind")
+	}
 	if e := externals[key]; e != nil {
 		tr.trusted["built-in model of "+key] = true
 		return e.apply(fc, args, pos)
